@@ -11,7 +11,7 @@
 // Exit 0 when everything was built and run.  An occa::exception gives exit 3 (message on stderr), any other
 // exception exit 4.  The cache directory comes from OCCA_CACHE_DIR.
 //
-// --gate: after the device is set up print READY and wait for one byte (or EOF) on stdin, then sleep --delay-us
+// --gate: after the device is set up print "READY <pid>" and wait for one byte (or EOF) on stdin, then sleep --delay-us
 // microseconds.  The C09 driver uses it to release all processes at the same instant, so that the generated start
 // offsets (and not process start-up jitter) decide the interleaving.
 #include <occa.hpp>
@@ -68,7 +68,7 @@ int main(int argc, char **argv) {
     occa::device device({{"mode", mode}});
 
     if (gate) {
-      std::cout << "READY" << std::endl;
+      std::cout << "READY " << (long) ::getpid() << std::endl;
       char c;
       ssize_t r = ::read(0, &c, 1);
       (void) r;
